@@ -301,7 +301,7 @@ def expect_violations(ctx, guards):
     """Each (module, cfg, invariant, meaning): TLC must find a counterexample to the invariant."""
     def one(g):
         module, cfg, inv, why = g
-        r = vlib.tlc(module, cfg, workers=2, timeout=900)
+        r = vlib.tlc(module, cfg, workers=2, timeout=900, expect=inv)
         return g, r
     for (module, cfg, inv, why), r in vlib.parallel(one, guards, workers=len(guards)):
         if inv not in r.invariant_violated:
